@@ -36,8 +36,9 @@ class Handler:
 class Case:
     """One observer + scratch paths; executes API calls under a watchdog and audits at the end."""
 
-    def __init__(self, kind="inotify", led=None, tree_dirs=2):
+    def __init__(self, kind="inotify", led=None, tree_dirs=2, timeout=None):
         self.kind = kind
+        self.timeout = timeout
         self.led = led
         self.base = tempfile.mkdtemp(prefix="wdv-api-")
         self.paths = {"p1": os.path.join(self.base, "p1"), "p2": os.path.join(self.base, "p2"), "missing": os.path.join(self.base, "nope"),
@@ -58,7 +59,7 @@ class Case:
         if kind == "inotify":
             from watchdog.observers.inotify import InotifyObserver
 
-            self.obs = InotifyObserver()
+            self.obs = InotifyObserver() if timeout is None else InotifyObserver(timeout=timeout)
         elif kind == "polling":
             from watchdog.observers.polling import PollingObserver
 
@@ -77,6 +78,7 @@ class Case:
         self.stopped = False
         self.joined = False
         self.hung = None
+        self.stop_done_after_start = False  # a stop() has returned on an observer that had been started before
 
     def call(self, op, arg=None, timeout=12.0, from_thread=True):
         """Returns a log record; on a hang returns with rec['status']=='hung' and self.hung set."""
@@ -104,6 +106,12 @@ class Case:
             elif op == "mkdirs":
                 # a directory-creation burst: the reader will want to add watches while it parses this batch
                 os.makedirs(os.path.join(self.paths[arg], f"d{len(self.log)}", "x", "y"))
+            elif op == "mvout":
+                # a file leaves the watched directory: its IN_MOVED_FROM stays unmatched and is held back for the pairing delay
+                src = os.path.join(self.paths[arg], f"m{len(self.log)}")
+                with open(src, "w"):
+                    pass
+                os.rename(src, os.path.join(self.base, f"out{len(self.log)}"))
             elif op == "sleep":
                 time.sleep(arg)
 
@@ -117,6 +125,8 @@ class Case:
                 self.started = True
             elif op == "stop":
                 self.stopped = True
+                if self.started:
+                    self.stop_done_after_start = True
             elif op == "join":
                 self.joined = True
         if status == "hung":
@@ -130,7 +140,15 @@ class Case:
     def finish(self):
         """stop()+join() (if possible), then audit.  Returns dict of observations."""
         out = {"hung": self.hung, "threads_alive": [], "fds_open": {}, "ledger_violations": [], "proc_fd_delta": 0, "exceptions": [],
-               "undocumented": [r for r in self.log if r["status"] == "raised" and not r.get("documented")]}
+               "undocumented": [r for r in self.log if r["status"] == "raised" and not r.get("documented")], "threads_alive_at_return": []}
+        out["after_completed_stop"] = None
+        if self.hung is None and self.stop_done_after_start:
+            # a stop() of a started observer has completed (and every other call has returned by now): whatever was
+            # scheduled meanwhile or afterwards must not have left threads or descriptors behind - BEFORE any further stop()
+            new = [t for t in threading.enumerate() if t not in self.threads0 and is_library_thread(t) and t is not self.obs]
+            left = monitors.wait_threads_gone(new, grace=1.0)
+            fds = {fd: r["kind"] for fd, r in self.led.open_fds().items()} if self.led is not None else {}
+            out["after_completed_stop"] = {"threads": [monitors.thread_desc(t) for t in left], "fds": fds}
         if self.hung is None:
             # stop() may be called more than once: always issue a final one (an emitter started after an earlier stop() -
             # stop(); schedule(); start() - must be ended by it)
@@ -143,6 +161,9 @@ class Case:
         out["hung"] = self.hung
         if self.hung is None:
             new = [t for t in threading.enumerate() if t not in self.threads0 and is_library_thread(t)]
+            # "afterwards every thread has exited": who is still running right after the final stop() (+ join()) returned?
+            early = monitors.wait_threads_gone(new, grace=0.05)
+            out["threads_alive_at_return"] = [{"thread": monitors.thread_desc(t), "stack": monitors.stack_of(t)} for t in early]
             alive = monitors.wait_threads_gone(new, grace=5.0)
             out["threads_alive"] = [{"thread": monitors.thread_desc(t), "stack": monitors.stack_of(t)} for t in alive]
             if self.led is not None:
@@ -252,9 +273,16 @@ def hold_case(ins: Instr, led, kind, point, nth, partner, with_event):
                     pass
             elif partner == "rmroot":
                 shutil.rmtree(c.paths["p2"], ignore_errors=True)
+            elif partner == "schedule":
+                # another thread schedules a watch while stop()/unschedule() is in the middle of its work
+                ps = threading.Thread(target=lambda: c.call("schedule", "p1"), name="wdv-partner", daemon=True)
+                ps.start()
+                ps.join(0.25)
             time.sleep(0.1)
         hold.release()
         t.join(15)
+        if partner == "schedule" and reached:
+            ps.join(15)
     else:
         reached = hold.wait_reached(2.0)
         if reached:
